@@ -97,8 +97,11 @@ Fixpoint map_opt {A B} (f : A -> option B) (l : list A) : option (list B) :=
 (* ---------------- distributions ---------------- *)
 (* dvars: conditioning variables at construction, in the order of get_conditioning_variables;
    dbound: those fixed so far; df: logpdf as a function of the values of (dvars ++ [name]) -- local
-   by construction; dconst: Density._constant *)
-Record dist := mkDist { dname : var; ddim : nat; dvars : list var; dbound : asg; dconst : V;
+   by construction; dconst: Density._constant; dattrs: the attribute names of the mutable variables
+   (get_mutable_variables: a None attribute is named after its conditioning variable, the others
+   have names of their own) -- a keyword naming a mutable variable that is not (or no longer) a
+   conditioning variable is refused by Distribution._condition *)
+Record dist := mkDist { dname : var; ddim : nat; dvars : list var; dattrs : list var; dbound : asg; dconst : V;
                         df : list val -> V }.
 
 Definition dfree (d : dist) : list var := filter (fun v => negb (amem v (dbound d))) (dvars d).
@@ -106,9 +109,9 @@ Definition dparams (d : dist) : list var := dfree d ++ [dname d].      (* get_pa
 Definition is_cond (d : dist) : bool := match dfree d with [] => false | _ => true end.
 
 Definition dist_bind (d : dist) (kw : asg) : dist :=
-  mkDist (dname d) (ddim d) (dvars d) (dbound d ++ restrict kw (dfree d)) (dconst d) (df d).
+  mkDist (dname d) (ddim d) (dvars d) (dattrs d) (dbound d ++ restrict kw (dfree d)) (dconst d) (df d).
 Definition add_const (d : dist) (c : V) : dist :=                       (* density._constant += c *)
-  mkDist (dname d) (ddim d) (dvars d) (dbound d) (vadd (dconst d) c) (df d).
+  mkDist (dname d) (ddim d) (dvars d) (dattrs d) (dbound d) (vadd (dconst d) c) (df d).
 
 (* (fully conditioned copy).logd(x) = logpdf(x) + _constant, conditioning values taken from env *)
 Definition dist_eval (d : dist) (env : asg) (x : val) : option V :=
@@ -118,8 +121,8 @@ Definition dist_eval (d : dist) (env : asg) (x : val) : option V :=
   end.
 
 (* Distribution built from its slots *)
-Definition mk_dist (name : var) (dim : nat) (ss : list slot) (c : V) (f : list val -> V) : dist :=
-  mkDist name dim (cond_vars ss) [] c f.
+Definition mk_dist (name : var) (dim : nat) (ss : list slot) (attrs : list var) (c : V) (f : list val -> V) : dist :=
+  mkDist name dim (cond_vars ss) attrs [] c f.
 
 (* ---------------- densities ---------------- *)
 Inductive dens := D (d : dist) | L (d : dist) (data : val) | E (n : var) (v : V).
@@ -324,15 +327,18 @@ Definition post_logd (strict : bool) (ld : dist) (data : val) (pr : dist) (c : V
   end.
 
 (* Distribution._condition / Likelihood._condition / EvaluatedDensity._condition called directly.
-   Precondition (not modelled): attribute names of non-None slots are not used as keywords.
    Keys that are neither conditioning variables nor the name: ignored when the name is also given
    (to_likelihood is taken first), ValueError otherwise. *)
+Definition attrs_ok (d : dist) (kw : asg) : bool :=      (* "The mutable variable ... is not a conditioning variable" *)
+  forallb (fun k => negb (mem k (dattrs d)) || mem k (dfree d)) (dom kw).
+
 Definition dens_cond (f : dens) (args : list val) (kw : asg) : option dens :=
   match f with
   | D d =>
       match dparse (dfree d) args kw with
       | None => None
       | Some (kw', main) =>
+          if negb (attrs_ok d kw') then None else
           let d' := dist_bind d kw' in
           match main with
           | Some x => to_likelihood d' x
@@ -362,9 +368,11 @@ Definition jdims (J : list dens) : list nat :=
 
 (* _StackedJointDistribution.logd(stacked_input): exactly one positional argument, split at the
    cumulative dimensions, zipped with the parameter names, JointDistribution.logd(keywords) *)
+Definition stacked_key : var := 78%nat.        (* the keyword `stacked_input` *)
 Definition stacked_call (J : list dens) (args : list val) (kw : asg) : option V :=
   match args, kw with
   | [x], [] => jlogd_kw J (combine (jparams J) (vsplit (jdims J) x))
+  | [], [(k, x)] => if Nat.eqb k stacked_key then jlogd_kw J (combine (jparams J) (vsplit (jdims J) x)) else None
   | _, _ => None
   end.
 
@@ -463,13 +471,39 @@ Definition obj_const (o : obj) : option V :=
   | OD (D d) => Some (dconst d) | OD (L d _) => Some (dconst d) | OD (E _ _) => Some v0
   end.
 
+(* a new joint assembled from single densities of the history (e.g. a reduced Distribution that
+   carries folded constants): the constructor checks run again *)
+Definition obj_join (os : list (option obj)) : option obj :=
+  match map_opt (fun o => match o with Some (OD f) => Some f | _ => None end) os with
+  | Some fs => if joint_init_ok fs then Some (OJ FJoint fs) else None
+  | None => None
+  end.
+
+Definition obj_factor (o : obj) (k : nat) : option obj :=
+  match o with OJ _ J => match nth_error J k with Some f => Some (OD f) | None => None end | _ => None end.
+
+(* Posterior.__init__: the likelihood has one parameter, the prior is not conditional; _constant = 0 *)
+Definition obj_mkpost (l p : obj) : option obj :=
+  match l, p with
+  | OD (L ld data), OD (D pr) =>
+      if (1 <? length (dfree ld))%nat || is_cond pr then None else Some (OP ld data pr (mzero M))
+  | _, _ => None
+  end.
+
+(* BayesianProblem.likelihood / .prior setters: refused unless the target is a Posterior; the object is
+   stored without any check *)
+Definition obj_setlik (t n : obj) : option obj :=
+  match t, n with OP _ _ pr c, OD (L ld data) => Some (OP ld data pr c) | _, _ => None end.
+Definition obj_setprior (t n : obj) : option obj :=
+  match t, n with OP ld data _ c, OD (D pr) => Some (OP ld data pr c) | _, _ => None end.
+
 End Model.
 
 Arguments D {val M}. Arguments L {val M}. Arguments E {val M}.
 Arguments OJ {val M}. Arguments OP {val M}. Arguments OD {val M}.
 Arguments mkDist {val M}. Arguments mk_dist {val M}.
 Arguments dname {val M}. Arguments ddim {val M}. Arguments dvars {val M}. Arguments dbound {val M}.
-Arguments dconst {val M}. Arguments df {val M}.
+Arguments dconst {val M}. Arguments df {val M}. Arguments dattrs {val M}.
 Arguments lookup {val}. Arguments dom {val}. Arguments amem {val}. Arguments restrict {val}.
 Arguments keys_ok {val}. Arguments lookup_all {val}. Arguments jparse {val}. Arguments dparse {val}.
 Arguments oadd {M}. Arguments osum {M}. Arguments map_opt {A B}.
@@ -487,6 +521,7 @@ Arguments obj_cond_kw {val M}. Arguments run_steps_kw {val M}. Arguments obj_kin
 Arguments obj_const {val M}.
 Arguments jdims {val M}. Arguments stacked_call {val M}. Arguments obj_stack {val M}. Arguments obj_view {val M}.
 Arguments post_cond {val M}. Arguments bp_set_data {val M}.
+Arguments obj_join {val M}. Arguments obj_factor {val M}. Arguments obj_mkpost {val M}. Arguments obj_setlik {val M}. Arguments obj_setprior {val M}.
 
 (* ------------------------------------------------------------------------------------------ *)
 (* _StackedJointDistribution.logd(stacked_input): np.split(x, cumsum(dims)[:-1]) -- the last piece
@@ -532,12 +567,20 @@ Fixpoint tbl (t : list (list qval * T)) (poison : T) (key : list qval) : T :=
 End Tables.
 
 Definition poison : Q := 999983 # 1.
+(* attribute names of the harness distributions: the i-th mutable variable is a None attribute named
+   after its variable, or has the private name 100+i *)
+Fixpoint slot_attrs (i : nat) (ss : list slot) : list var :=
+  match ss with
+  | [] => []
+  | SUnset v :: r => v :: slot_attrs (S i) r
+  | _ :: r => (100 + i)%nat :: slot_attrs (S i) r
+  end.
 Definition qmk (name : var) (dim : nat) (ss : list slot) (c : Q) (t : list (list qval * Q)) : dist qval QM :=
-  @mk_dist qval QM name dim ss c (tbl t poison).
+  @mk_dist qval QM name dim ss (slot_attrs 0 ss) c (tbl t poison).
 Definition qD (d : dist qval QM) : dens qval QM := D d.
 Definition qL (d : dist qval QM) (data : qval) : dens qval QM := L d data.
 Definition fmk (name : var) (dim : nat) (ss : list slot) (t : list (list qval * float)) : dist qval FM :=
-  @mk_dist qval FM name dim ss 0%float (tbl t 999983%float).
+  @mk_dist qval FM name dim ss (slot_attrs 0 ss) 0%float (tbl t 999983%float).
 Definition fD (d : dist qval FM) : dens qval FM := D d.
 Definition qdens := dens qval QM.
 Definition qobj := obj qval QM.
@@ -616,17 +659,20 @@ Inductive hop :=
   | OpStack (src : nat) (ob : stage_obs)                      (* obj._as_stacked() *)
   | OpView (which src : nat) (ob : stage_obs)                 (* BayesianProblem.likelihood / .prior of the target *)
   | OpSetData (src : nat) (kw : qasg) (ob : stage_obs)        (* BayesianProblem.set_data *)
-  | OpJoin (srcs : list nat) (ob : stage_obs).                (* JointDistribution( objects ): re-assembly from reduced objects *)
+  | OpJoin (srcs : list nat) (ob : stage_obs)                 (* JointDistribution( objects ): re-assembly from reduced objects *)
+  | OpFactor (src k : nat) (ob : stage_obs)                   (* the k-th factor object of joint src (the very object the joint holds) *)
+  | OpMkPost (lsrc psrc : nat) (ob : stage_obs)               (* Posterior(likelihood, prior, name=prior.name) built by the user *)
+  | OpSetLik (src from : nat) (ob : stage_obs)                (* problem.likelihood = obj: writes into the Posterior target IN PLACE *)
+  | OpSetPrior (src from : nat) (ob : stage_obs).             (* problem.prior = obj *)
 
 Definition get_obj (objs : list (option mobj)) (src : nat) : option mobj :=
   match nth_error objs src with Some (Some o) => Some o | _ => None end.
 
-(* a new joint assembled from single densities of the history (e.g. a reduced Distribution that
-   carries folded constants): the constructor checks run again *)
-Definition obj_join (os : list (option mobj)) : option mobj :=
-  match map_opt (fun o => match o with Some (OD f) => Some f | _ => None end) os with
-  | Some fs => if joint_init_ok fs then Some (OJ FJoint fs) else None
-  | None => None
+Fixpoint set_nth {A} (l : list A) (i : nat) (x : A) : list A :=
+  match l, i with
+  | [], _ => []
+  | _ :: r, O => x :: r
+  | a :: r, S j => a :: set_nth r j x
   end.
 
 Fixpoint check_prog (objs : list (option mobj)) (ops : list hop) : bool :=
@@ -661,19 +707,44 @@ Fixpoint check_prog (objs : list (option mobj)) (ops : list hop) : bool :=
           end
       | OpJoin srcs ob =>
           let o' := obj_join (map (get_obj objs) srcs) in stage_of o' ob && check_prog (objs ++ [o']) r
+      | OpFactor src k ob =>
+          match get_obj objs src with
+          | Some o => let o' := obj_factor o k in stage_of o' ob && check_prog (objs ++ [o']) r
+          | None => false
+          end
+      | OpMkPost lsrc psrc ob =>
+          match get_obj objs lsrc, get_obj objs psrc with
+          | Some l, Some p => let o' := obj_mkpost l p in stage_of o' ob && check_prog (objs ++ [o']) r
+          | _, _ => false
+          end
+      | OpSetLik src from ob =>
+          match get_obj objs src, get_obj objs from with
+          | Some t, Some n => let o' := obj_setlik t n in
+                              stage_of o' ob && check_prog (match o' with Some _ => set_nth objs src o' | None => objs end) r
+          | _, _ => false
+          end
+      | OpSetPrior src from ob =>
+          match get_obj objs src, get_obj objs from with
+          | Some t, Some n => let o' := obj_setprior t n in
+                              stage_of o' ob && check_prog (match o' with Some _ => set_nth objs src o' | None => objs end) r
+          | _, _ => false
+          end
       end
   end.
 
 Definition check_history_from (o : mobj) (ops : list hop) : bool := check_prog [Some o] ops.
 End Check.
 
-Arguments OpCond {M}. Arguments OpEval {M}. Arguments OpStack {M}. Arguments OpView {M}. Arguments OpSetData {M}. Arguments OpJoin {M}.
+Arguments OpCond {M}. Arguments OpEval {M}. Arguments OpStack {M}. Arguments OpView {M}. Arguments OpSetData {M}. Arguments OpJoin {M}. Arguments OpFactor {M}. Arguments OpMkPost {M}.
+Arguments OpSetLik {M}. Arguments OpSetPrior {M}.
 
 (* ---- Q instances (exact when tol = 0) ---- *)
 Definition qCond := @OpCond QM. Definition qEval := @OpEval QM. Definition qStack := @OpStack QM.
 Definition qView := @OpView QM. Definition qSetData := @OpSetData QM. Definition qJoin := @OpJoin QM.
+Definition qFactor := @OpFactor QM. Definition qMkPost := @OpMkPost QM. Definition qSetLik := @OpSetLik QM. Definition qSetPrior := @OpSetPrior QM.
 Definition fCond := @OpCond FM. Definition fEval := @OpEval FM. Definition fStack := @OpStack FM.
 Definition fView := @OpView FM. Definition fSetData := @OpSetData FM. Definition fJoin := @OpJoin FM.
+Definition fFactor := @OpFactor FM. Definition fMkPost := @OpMkPost FM. Definition fSetLik := @OpSetLik FM. Definition fSetPrior := @OpSetPrior FM.
 Definition qeq (tol : Q) (obs model : Q) : bool := q_close tol obs model.
 
 Definition check_run (pnamed strict : bool) (tol : Q) (J : list qdens) steps obs evals : bool :=
